@@ -15,7 +15,7 @@ PROPERTY_FILE = "Properties/C18.v"
 TIE = "Tie.C18"
 DRIVER = "c18_driver.py"
 THEOREMS = ["C18_fromFunction_correct", "C18_signature_string_renders", "C18_fromMethod_strips_self"]
-SHARD = 250
+SHARD = 120
 GEN_FILE = os.path.join(C.COQ, "Gen", "FromFunction.v")
 SOURCE = os.path.join(C.REPO, "src", "zope", "interface", "interface.py")
 
